@@ -5,7 +5,7 @@ from .. import impl, explore, semcheck, families
 PID = 'C01'
 LEVEL = 'model_checking'
 TECHNIQUE = 'bounded-exhaustive enumeration of core-fragment programs x all small databases, real pipeline on SQLite vs a reference evaluator'
-ASSUMPTIONS = ['small scope: <=3 body literals over A/2, B/1, terms x,y,z,1; all multisets of <=2 rows over {1,2} per table (90 databases) plus 3 fact-form databases',
+ASSUMPTIONS = ['small scope: <=3 body literals over A/2, B/1, terms x,y,z,1; all multisets of <=2 rows over {1,2} per table (90 databases) plus 3 fact-form databases', 'beyond the small grammars only by representatives: 145 databases with values -1, 0, 10, 0.5 (<=2 rows), and the WIDE family (12-13 columns / body literals / variables, 7 rules or disjuncts, 4-5 levels of nesting, chains of 6 intermediate predicates, 11 predicates side by side)',
                'corners listed in DESIGN 2.4 (integer division, null keys, reserved-word identifiers) are not generated']
 
 _CASES = None
@@ -77,4 +77,4 @@ LEVEL_TEXT = ('Every program of six finite grammars (conjunctive queries, extra 
               'SQLite over all 90 small table-form databases (incl. empty tables and duplicate rows) and 3 fact-form databases; rows and column names are compared with a '
               'reference evaluator of the documented multiset semantics. Exhaustive within the bound, so a translation slip that shows on any small program/database is found.')
 LEVEL_NOTE = ('Trusted: the program printer and the ~600-line reference evaluator (mc/refsem.py), SQLite 3.40. Bounded: <=2 (thorough 3) body literals, expression depth <=2, '
-              'two-valued domains, <=2 rows per table.')
+              'two-valued domains, <=2 rows per table; larger shapes and other values only through the fixed representatives of the WIDE family and the value databases.')
